@@ -282,6 +282,73 @@ func TestVerifC06(t *testing.T) {
 				if err == nil {
 					res = fmt.Sprintf("val:r:%d:%d:%d", v.Id, v.V, v.A)
 				}
+			case "ctake":
+				// concurrent readers of one key: the load runs inside the shared SingleFlight, so at most one
+				// database query is in flight and every reader gets the same result
+				pk := verifh.Atoi(op[1][1:])
+				n := verifh.Atoi(c06Opt(op, "n", "4"))
+				var mu sync.Mutex
+				inflight, maxInflight, total, started := 0, 0, 0, 0
+				results := make([]string, n)
+				var wg sync.WaitGroup
+				for i := 0; i < n; i++ {
+					wg.Add(1)
+					go func(i int) {
+						defer wg.Done()
+						mu.Lock()
+						started++
+						mu.Unlock()
+						var v c06Row
+						err := cc.QueryRowCtx(ctx, &v, c06Key(op[1]), func(ctx context.Context, conn sqlx.SqlConn, v any) error {
+							mu.Lock()
+							inflight++
+							total++
+							if inflight > maxInflight {
+								maxInflight = inflight
+							}
+							mu.Unlock()
+							// hold the query until every reader has been launched, then a little longer
+							for k := 0; k < 2000; k++ {
+								mu.Lock()
+								all := started == n
+								mu.Unlock()
+								if all {
+									break
+								}
+								time.Sleep(50 * time.Microsecond)
+							}
+							time.Sleep(300 * time.Microsecond)
+							mu.Lock()
+							inflight--
+							mu.Unlock()
+							if dbfail {
+								return errC06DB
+							}
+							r, ok := rows[pk]
+							if !ok {
+								return ErrNotFound
+							}
+							*v.(*c06Row) = r
+							return nil
+						})
+						r := c06Err(err)
+						if err == nil {
+							r = fmt.Sprintf("val:r:%d:%d:%d", v.Id, v.V, v.A)
+						}
+						results[i] = r
+					}(i)
+				}
+				wg.Wait()
+				distinct := map[string]bool{}
+				for _, r := range results {
+					distinct[r] = true
+				}
+				qs := strconv.Itoa(total)
+				if dbfail && total >= 1 && total <= n {
+					qs = "ok"
+				}
+				cleaner.Sync()
+				return fmt.Sprintf("%s q=%s cmds=- inflight=%d distinct=%d | %s", results[0], qs, maxInflight, len(distinct), dump())
 			case "qindex":
 				a := verifh.Atoi(op[1][1:])
 				var v c06Row
@@ -532,8 +599,10 @@ func c06Gen(r *verifh.Rng) []verifh.Section {
 			switch x := r.Intn(100); {
 			case x < 28:
 				ops = append(ops, fmt.Sprintf("take p%d%s%s%s", pkey(), c06J(r), c06Mask(r, 3), c06DBFault(r)))
-			case x < 44:
+			case x < 42:
 				ops = append(ops, fmt.Sprintf("qindex x%d%s%s%s", pkey(), c06J(r), c06Mask(r, 4), c06DBFault(r)))
+			case x < 44:
+				ops = append(ops, fmt.Sprintf("ctake p%d n=%d%s%s", pkey(), r.Range(2, 6), c06J(r), c06DBFault(r)))
 			case x < 64:
 				val++
 				w := fmt.Sprintf("put:%d:%d:%d", pkey(), val, pkey())
